@@ -271,6 +271,7 @@ class Schema:
         self.classes: dict[str, dict[str, T]] = {}
         self.dataclass_fields: dict[str, list] = {}     # class -> [(name, T, default-kind)]
         self.alias: dict = {}                              # (class, attr) -> storage attribute name
+        self.presence: dict = {}                           # (class, attr) -> ghost bool field: hasattr(obj, attr) for dynamically added attributes
 
     def add_class(self, name, fields: dict[str, T]):
         self.classes.setdefault(name, {}).update(fields)
